@@ -34,6 +34,10 @@ if VERIF not in sys.path:
 from simkit.prng import Prng, run_seed  # noqa: E402
 
 SHARDS = 16
+# The registered commands always test /repo's working tree (the editable install). VERIF_REPO exists only so
+# that a background soak (`vp run --with-repo`) can test a frozen snapshot of /repo's HEAD while /repo itself
+# is being used for sensitivity runs.
+REPO_ROOT = os.environ.get("VERIF_REPO") or "/repo"
 PY = sys.executable
 RUN_WALL_S = 60  # per-run watchdog (a normal run takes milliseconds)
 
@@ -46,8 +50,9 @@ def assert_repo():
     import swcgeom
 
     p = os.path.realpath(swcgeom.__file__)
-    if not p.startswith("/repo/"):
-        raise SystemExit(f"HARNESS: swcgeom imported from {p}, not /repo")
+    root = os.path.realpath(REPO_ROOT)
+    if not p.startswith(root + "/"):
+        raise SystemExit(f"HARNESS: swcgeom imported from {p}, not {root}")
     # warm up everything a run may import, so that forked runs start from one complete image
     import swcgeom.analysis  # noqa: F401
     import swcgeom.core  # noqa: F401
@@ -259,6 +264,8 @@ def spawn(args: list[str], hashseed: str, timeout_s: int, **kw) -> subprocess.Po
     env.setdefault("OMP_NUM_THREADS", "1")
     env.setdefault("OPENBLAS_NUM_THREADS", "1")
     env.setdefault("MKL_NUM_THREADS", "1")
+    if os.path.realpath(REPO_ROOT) != "/repo":
+        env["PYTHONPATH"] = os.path.realpath(REPO_ROOT) + (os.pathsep + env["PYTHONPATH"] if env.get("PYTHONPATH") else "")
     cmd = ["timeout", "-k", "10", str(timeout_s), PY, os.path.abspath(__file__)] + args
     return subprocess.Popen(cmd, env=env, cwd=VERIF, **kw)
 
@@ -352,7 +359,8 @@ def parent(prop: str, tier: str, verif_seed: int) -> int:
                 continue
             by_sig.setdefault(signature(r["violation"]), r)
         reported: list[tuple[str, str]] = []
-        os.makedirs(os.path.join(VERIF, "replays"), exist_ok=True)
+        rdir = os.environ.get("VERIF_REPLAY_DIR") or os.path.join(VERIF, "replays")
+        os.makedirs(rdir, exist_ok=True)
         sigs = sorted(by_sig)[: int(os.environ.get("VERIF_MAX_SIGS", "12"))]
         jobs = []
         for sig in sigs:
@@ -376,7 +384,7 @@ def parent(prop: str, tier: str, verif_seed: int) -> int:
                 harness_problems.append(f"shrunk program for {sig} lost its signature")
                 continue
             name = f"{prop}-{r['seed']:016x}-" + hashlib.sha1(sig.encode()).hexdigest()[:8] + ".json"
-            rpath = os.path.join(VERIF, "replays", name)
+            rpath = os.path.join(rdir, name)
             doc = {
                 "property": prop,
                 "signature": sig,
@@ -461,8 +469,11 @@ def parent(prop: str, tier: str, verif_seed: int) -> int:
         problems = validate_evidence(evidence)
         if problems:
             harness_problems.append("evidence invalid: " + "; ".join(problems))
-        os.makedirs(os.path.join(VERIF, "evidence"), exist_ok=True)
-        with open(os.path.join(VERIF, "evidence", f"{prop}.json"), "w") as f:
+        # sensitivity runs against a deliberately broken tree (tools/try_mutant.sh, tools/verify_seed.sh) set
+        # VERIF_EVIDENCE_DIR so that they never overwrite the evidence of the real tree
+        evdir = os.environ.get("VERIF_EVIDENCE_DIR") or os.path.join(VERIF, "evidence")
+        os.makedirs(evdir, exist_ok=True)
+        with open(os.path.join(evdir, f"{prop}.json"), "w") as f:
             json.dump(evidence, f, sort_keys=True, indent=1)
 
         for line in known_seen:
